@@ -354,7 +354,11 @@ def monitor_case(c, line, lines, ctx, stats):
     got = {}
     for l in lines:
         p = l.split(" ")
-        if p[0] in ("bbox", "rate", "q", "sum", "area"):
+        if p[0] == "q" and len(p) == 3:
+            # the run raised an exception: "q <run> err:<kind>"
+            for tt in range(c.T):
+                got[("q", int(p[1]), tt)] = [p[2]]
+        elif p[0] in ("bbox", "rate", "q", "sum", "area"):
             got[(p[0], int(p[1]), int(p[2]))] = p[3:]
         elif p[0] in ("avg", "prob", "dd"):
             got[(p[0], int(p[1]))] = p[2:]
@@ -440,7 +444,7 @@ def monitor_case(c, line, lines, ctx, stats):
             inf = [(i, j) for (i, j) in c.suit if ras[i][j] != 0]
             g = got.get(("q", r, t))
             if g is None or len(g) != 3:
-                viol("C18.escape.missing", "no quarantine record: %s" % got.get(("q", r, 0)), r, t)
+                viol("C18.escape.exception", "no quarantine record, the run ended with: %s" % g, r, t)
                 continue
             esc, dist, deg = g[0] == "1", pnum(g[1]), int(g[2])
             outside = [x for x in inf if c.areas[x[0]][x[1]] == 0]
